@@ -158,8 +158,9 @@ class PropSpec:
     not_decided: str = ""
 
 
-def run_check(spec: PropSpec, prog: Program) -> Ctx:
+def run_check(spec: PropSpec, prog: Program, tier: str = "quick") -> Ctx:
     ctx = Ctx(prog, spec.pid)
+    ctx.stats["tier"] = tier
     spec.check(ctx)
     return ctx
 
@@ -174,7 +175,7 @@ def run_property(spec: PropSpec, tier: str, seed: int, *, write: bool = True, qu
         prog = Program.from_repo()
         if prog.syntax_errors:
             errors.append(f"syntax errors: {prog.syntax_errors}")
-        ctx = run_check(spec, prog)
+        ctx = run_check(spec, prog, tier)
         if tier == "thorough" and spec.sweep:
             spec.sweep(ctx)
     except AnchorMissing as e:
